@@ -365,6 +365,15 @@ func (w *World) storeHook(verb, name string) error {
 	return nil
 }
 
+// nodeIndexer serves the (static) node objects through a lister (Preempt looks nodes up by name).
+func (w *World) nodeIndexer() cache.Indexer {
+	idx := cache.NewIndexer(cache.MetaNamespaceKeyFunc, cache.Indexers{})
+	for _, n := range w.Nodes {
+		_ = idx.Add(n.DeepCopy())
+	}
+	return idx
+}
+
 func (w *World) syncPoolLister() {
 	for _, o := range w.poolIdx.List() {
 		_ = w.poolIdx.Delete(o)
@@ -385,6 +394,7 @@ func (w *World) StartProcess() error {
 		StatefulSetLister: appslisters.NewStatefulSetLister(w.stsIdx),
 		DeploymentLister:  appslisters.NewDeploymentLister(w.dpIdx),
 		PoolLister:        galaxylisters.NewPoolLister(w.poolIdx),
+		NodeLister:        corelisters.NewNodeLister(w.nodeIndexer()),
 		FIPInformer:       w.Inf,
 		ExtensionLister:   extlisters.NewCustomResourceDefinitionLister(w.crdIdx),
 	}
